@@ -702,7 +702,12 @@ static_map_read_bencode_c(const char* first,
     // The max length of 'current_key' is one char more than the
     // mapping key so any bencode which exceeds that will always fail
     // to find a match.
-    if (raw_key.size() >= static_map_mapping_type::max_key_size - stack_itr->next_key) {
+    //
+    // Keys containing a NUL or one of the path characters of the
+    // mapping syntax can never name an entry, they would otherwise be
+    // truncated or alias a nested entry.
+    if (raw_key.size() >= static_map_mapping_type::max_key_size - stack_itr->next_key ||
+        std::find_if(raw_key.begin(), raw_key.end(), &static_map_mapping_type::is_not_key_char) != raw_key.end()) {
       first = object_read_bencode_skip_c(first, last);
       continue;
     }
